@@ -6,6 +6,10 @@
 
 package queue
 
+//@ # wiring that is set once by the constructors
+//@ stable fanOutQueue.queue
+//@ stable queue.appendedSeq
+//@ stable queue.acknowledgedSeq
 //@ # ---- views --------------------------------------------------------------------------------
 //@ predicate Qapp(x Queue) int64 = cast(x, "*queue").appendedSeq.val
 //@ predicate Qack(x Queue) int64 = cast(x, "*queue").acknowledgedSeq.val
@@ -19,7 +23,7 @@ package queue
 //@ # ---- interface contracts (assumed at call sites, refined by the implementations below) ----
 //@ predicate QOK(x Queue) bool = x != nil && typeis(x, "*queue") && qOK(cast(x, "*queue"))
 //@ func Queue.AppendedSeq
-//@   requires QOK(self)
+//@   requires self != nil && typeis(self, "*queue") && cast(self, "*queue").appendedSeq != nil
 //@   ensures result == Qapp(self)
 //@ end
 //@ func Queue.AcknowledgedSeq
@@ -32,6 +36,13 @@ package queue
 //@   ensures (seq > old(Qack(self)) && seq <= Qapp(self)) ==> Qack(self) == seq
 //@   ensures !(seq > old(Qack(self)) && seq <= Qapp(self)) ==> Qack(self) == old(Qack(self))
 //@ end
+//@ predicate QputOK(x Queue) bool = QOK(x) && qCursorOK(cast(x, "*queue")) && qIndexOK(cast(x, "*queue")) && seqOK(cast(x, "*queue").appendedSeq.val) && cast(x, "*queue").appendedSeq.val < 4611686018427387903 && cast(x, "*queue").dataPageIndex < 4611686018427387903
+//@ func Queue.Put
+//@   requires QputOK(self)
+//@   modifies *
+//@   ensures[dense] result == nil ==> Qapp(self) == old(Qapp(self)) + 1
+//@   ensures[failed_put_appends_nothing] result != nil ==> Qapp(self) == old(Qapp(self))
+//@ end
 //@ func FanOutQueue.Queue
 //@   ensures result == FQqueue(self)
 //@ end
@@ -43,6 +54,40 @@ package queue
 //@   requires cast(self, "*consumerGroup").consumedSeq != nil
 //@   ensures result == CGcons(self)
 //@ end
+
+//@ # leader-side position updates used by the replication handshake (C08); assumed at call sites, the
+//@ # consumerGroup implementations are proved against the same statements under C06
+//@ stable consumerGroup.q
+//@ stable consumerGroup.consumedSeq
+//@ stable consumerGroup.acknowledgedSeq
+//@ stable consumerGroup.metaPage
+//@ func ConsumerGroup.SetConsumedSeq
+//@   norefine
+//@   requires typeis(self, "*consumerGroup") && cast(self, "*consumerGroup").consumedSeq != nil
+//@   modifies cast(self, "*consumerGroup").consumedSeq.val, any(*page.mappedPage).mappedBytes[*]
+//@   ensures CGcons(self) == seq
+//@ end
+//@ func ConsumerGroup.Ack
+//@   norefine
+//@   requires typeis(self, "*consumerGroup") && cast(self, "*consumerGroup").consumedSeq != nil && cast(self, "*consumerGroup").acknowledgedSeq != nil
+//@   modifies cast(self, "*consumerGroup").acknowledgedSeq.val, any(*page.mappedPage).mappedBytes[*]
+//@   ensures (ackSeq >= old(CGack(self)) && ackSeq <= CGcons(self)) ==> CGack(self) == ackSeq
+//@   ensures !(ackSeq >= old(CGack(self)) && ackSeq <= CGcons(self)) ==> CGack(self) == old(CGack(self))
+//@ end
+//@ func ConsumerGroup.Queue
+//@   requires typeis(self, "*consumerGroup")
+//@   ensures result == cast(self, "*consumerGroup").q
+//@ end
+//@ # the fan-out queue moves its own append position and the positions of all its consumer groups
+//@ func FanOutQueue.SetAppendedSeq
+//@   norefine
+//@   requires typeis(self, "*fanOutQueue")
+//@   modifies any(*atomic.Int64).val, any(*page.mappedPage).mappedBytes[*]
+//@   ensures Qapp(FQqueue(self)) == seq && Qack(FQqueue(self)) == seq
+//@   ensures all(g, "ref", (typeis(g, "*consumerGroup") && cast(g, "*consumerGroup").q == self) ==> (CGcons(cast(g, "ConsumerGroup")) == seq && CGack(cast(g, "ConsumerGroup")) == seq))
+//@   ensures all(g, "ref", (typeis(g, "*consumerGroup") && cast(g, "*consumerGroup").q != self) ==> (CGcons(cast(g, "ConsumerGroup")) == old(CGcons(cast(g, "ConsumerGroup"))) && CGack(cast(g, "ConsumerGroup")) == old(CGack(cast(g, "ConsumerGroup")))))
+//@ end
+//@ # the append position of the log as seen through the fan-out queue (C08 handshake)
 
 //@ # ---- consumer group (C06) --------------------------------------------------------------------
 //@ lock consumerGroup.lock4headSeq protects consumedSeq.val acknowledgedSeq.val rwrites acknowledgedSeq.val
@@ -119,7 +164,7 @@ package queue
 
 //@ func queue.AppendedSeq
 //@   prop C05 C06
-//@   requires qOK(q)
+//@   requires q.appendedSeq != nil
 //@   ensures result == q.appendedSeq.val
 //@ end
 //@ func queue.AcknowledgedSeq
